@@ -35,12 +35,18 @@ def run_schedule(sched, var, watch0, rand):
                                        REPETITIONS_MAX=v["reps"], REPETITIONS_BASE_DELAY=v["base"], FIND_TTL=FIND_TTL),
                      rand=list(rand))
     d = st.prot.discovery
+    lsts = {}
+
+    def listener(name):          # one listener object per name: watching twice is the same registration
+        if name not in lsts:
+            lsts[name] = sdenv.ClientL(st.rec, name)
+        return lsts[name]
     if isinstance(watch0, dict):            # {listener: [filters]}  (Mode 2: the registrations of the configuration)
         for l, fs in watch0.items():
             for f in fs:
-                d.watch_service(sdenv.service(f), sdenv.ClientL(st.rec, l))
+                d.watch_service(sdenv.service(f), listener(l))
     else:
-        lst = sdenv.ClientL(st.rec, "L1")
+        lst = listener("L1")
         for f in watch0:
             d.watch_service(sdenv.service(f), lst)
 
@@ -54,7 +60,7 @@ def run_schedule(sched, var, watch0, rand):
         elif op == "disc_stop":
             st.call(ev, d.stop)
         elif op == "watch":
-            st.call(ev, d.watch_service, sdenv.service(inp["flt"]), sdenv.ClientL(st.rec, inp["lst"]))
+            st.call(ev, d.watch_service, sdenv.service(inp["flt"]), listener(inp["lst"]))
         elif op == "connlost":
             st.call(ev, st.prot.connection_lost, None)
     tmax = 0
